@@ -65,6 +65,7 @@ fn main() {
         ("gen", "C20") => c20::generate(&a),
         ("gen", "C19") => c19::generate(&a),
         ("capichild", "C19") => c19::child(&a),
+        ("parsechild", "C08") => c08::child(&a),
         ("gen", "C18") => c18::generate(&a),
         ("gen", "C12") => c12::generate(&a),
         ("gen", "C13") => c13::generate(&a),
